@@ -435,7 +435,8 @@ class TFLiteSemantic:
                 )
             if op.ifm is not None and op.ifm.is_quantized():
                 ifm_scale = op.ifm.quantization.scale_f32
-                if np.any(np.isinf(ifm_scale / ofm_scale)):
+                # per-axis scales can have different lengths: test the largest quotient
+                if np.isinf(np.max(ifm_scale) / np.min(ofm_scale)):
                     return (
                         False,
                         f"IFM scale divided by OFM scale is infinite, ifm_scale={ifm_scale} ofm_scale={ofm_scale}",
